@@ -267,6 +267,10 @@ func normalizeForJSON(v interface{}) interface{} {
 // subscription roots (set and reset around NewWorld by the caller).
 var QueryOnlyWorld bool
 
+// WorldBOnlyField gives world "B" a root field (onlyB) that world "A" lacks, so
+// that a document can be valid for one schema and invalid for the other.
+var WorldBOnlyField bool
+
 // NewWorld builds a fresh, cold schema.
 func NewWorld(id string, exts ...graphql.Extension) *World {
 	w := &World{ID: id, Obj: map[string]*graphql.Object{}, Possible: map[string][]string{}}
@@ -535,6 +539,15 @@ func NewWorld(id string, exts ...graphql.Extension) *World {
 			"x6":          &graphql.Field{Type: graphql.String},
 			"x7":          &graphql.Field{Type: graphql.String},
 			"x8":          &graphql.Field{Type: graphql.String},
+		}
+	}
+	if WorldBOnlyField && id == "B" {
+		// a schema of a different shape: this root field exists in world B only
+		inner := rootFields
+		rootFields = func() graphql.Fields {
+			fs := inner()
+			fs["onlyB"] = &graphql.Field{Type: graphql.String}
+			return fs
 		}
 	}
 	query := mkObj("Query", nil, false, rootFields)
